@@ -19,6 +19,79 @@ INTERIOR = re.compile(r"\b(RefCell|Cell|UnsafeCell|Mutex|RwLock|Atomic\w+|OnceCe
 ROOTS = ["rscel::context::CelContext", "rscel::context::bind_context::BindContext", "rscel::program::Program"]
 
 
+def pure_search_loop(b):
+    """an unlisted body that iterates a hash container is order-insensitive when its loop(s) only SEARCH: no call in the loop takes a `&mut`
+    argument except the iterator's own next(), no local written in the loop is read after the loop's normal completion, and every early exit
+    assigns one and the same constant to the return place. Returns the constant's text, or None."""
+    import mirq
+    q = mirq.BodyQ(b)
+    heads = [i for i, t, pth in q.call_sites(r"hash_(map|set)::(Iter|IterMut|Keys|Values|ValuesMut|IntoIter|IntoKeys|IntoValues|Drain)<.*> as std::iter::Iterator>::next$")]
+    if not heads:
+        return None
+    consts = set()
+    for h in heads:
+        loop = set(x for x in q.reach(h) if h in q.reach(x))
+        ve = q.variant_edges(h)
+        if not ve or ve.get("None") is None:
+            return None
+        after = q.reach(ve["None"]) - loop
+        written = set()
+        for i, t in b.calls():
+            if i not in loop:
+                continue
+            if i != h and any(str(ty).startswith("&mut") for ty in t.get("atys", [])):
+                return None
+            d = t.get("dest") or {}
+            if "l" in d:
+                written.add(d["l"])
+        for i, st in b.stmts():
+            if i in loop and st.get("k") == "assign":
+                written.add(st["place"].get("l"))
+        written.discard(0)
+        for i, blk in enumerate(b.blocks):
+            if i not in after or blk.get("cleanup"):
+                continue
+            for it in list(blk["stmts"]) + ([blk["term"]] if blk["term"] else []):
+                if it.get("k") in ("storage_dead", "storage_live", "drop", "nop"):
+                    continue
+                for o in lib.iter_operands(it):
+                    pl = o.get("copy") or o.get("move")
+                    if pl and pl.get("l") in written:
+                        return None
+        exits = 0
+        for x in loop:
+            for y in b.succs(x):
+                if y in loop or y == ve["None"]:
+                    continue
+                if b.blocks[y].get("cleanup") or (b.blocks[y]["term"] or {}).get("k") == "unreachable":
+                    continue
+                exits += 1
+                region = q.reach(y) - loop
+                vals = set()
+                for i2, s2 in b.stmts():
+                    if i2 in region and s2.get("k") == "assign" and s2["place"].get("l") == 0 and "p" not in s2["place"]:
+                        rv = s2["rv"]
+                        c = lib.op_const_int(rv.get("op", {})) if rv.get("k") == "use" else None
+                        vals.add(("const", c) if c is not None else ("other", rv.get("k")))
+                for i2, t2 in b.calls():
+                    if i2 in region and (t2.get("dest") or {}).get("l") == 0:
+                        vals.add(("other", "call"))
+                # only the values assigned on the way from this exit count; the normal completion has its own
+                region_norm = q.reach(ve["None"]) - loop
+                early_only = set()
+                for i2, s2 in b.stmts():
+                    if i2 in region and i2 not in region_norm and s2.get("k") == "assign" and s2["place"].get("l") == 0 and "p" not in s2["place"]:
+                        rv = s2["rv"]
+                        c = lib.op_const_int(rv.get("op", {})) if rv.get("k") == "use" else None
+                        early_only.add(("const", c) if c is not None else ("other", rv.get("k")))
+                if not early_only or any(k != "const" for k, _ in early_only):
+                    return None
+                consts |= early_only
+    if len(consts) == 1:
+        return "returns %s" % list(consts)[0][1]
+    return None
+
+
 def run(chk, tier):
     F = lib.get_facts()
     chk.rule("R11.1", "no mutable static / thread-local is read or written by any rscel body")
@@ -55,6 +128,8 @@ def run(chk, tier):
             producer = re.compile(r"HashMap::<K, V, S>::(values|keys|iter)<|HashSet::<T, S>::iter<|::len<")
             if row is None and all(commut.search(c) or producer.search(c) for c in consumers) and any(commut.search(c) for c in consumers):
                 chk.ok("R11.4", key, "commutative fold (any / all / count ..) over the elements")
+            elif row is None and pure_search_loop(b):
+                chk.ok("R11.4", key, "search loop: nothing is accumulated, every early exit returns one and the same constant (%s)" % pure_search_loop(b))
             elif row is None:
                 chk.bad("R11.4", key, "%s iterates a HashMap/HashSet (%s): hash order differs between runs and clones and may reach the result" % (b.path, lib.short(hs[0])[:80]), b.file)
             elif row[0] == "sorted":
